@@ -50,6 +50,8 @@ def run(ctx):
         codec, lno, what = m.group(1), int(m.group(2)), m.group(3)
         rec = recs[lno - 1]
         cause = rec["note"] if rec.get("note", "").startswith("subsecond") else (rec.get("tamper") or rec["ev"])
+        if rec.get("note", "").startswith("kept-encoding-changed"):
+            cause = "kept-encoding-changed-by-later-encodings"
         ctx.violation("%s/%s/%s" % (what, codec, cause), "%s: %s" % (what, (details[i] if i < len(details) else "")[:600]), {"record": rec})
     ctx.assumptions += [
         "PARTIAL CLAIM: totality is shown on bounded neighbourhoods of valid encodings (all prefixes, four substitutions per byte), not on arbitrary byte strings "
